@@ -150,6 +150,7 @@ LexInit(line) == [st |-> "INITIAL", i |-> 1, buf |-> <<>>, line |-> line, toks |
 LexInitAt(st, rep) == [LexInit(1) EXCEPT !.st = st, !.rep = rep]
 
 Tok(k, v, line) == [k |-> k, v |-> v, line |-> line]
+NlIn(txt) == Cardinality({j \in 1..Len(txt) : txt[j] = cNL})
 
 LexStep(s, L) ==
   IF L.i > Len(s) THEN
@@ -179,7 +180,9 @@ LexStep(s, L) ==
        [] p.r = "copen"  -> [N EXCEPT !.st = "comment", !.buf = <<>>]
        [] p.r = "dqopen" -> [N EXCEPT !.st = "dq_str", !.buf = <<>>]
        [] p.r = "sqopen" -> [N EXCEPT !.st = "sq_str", !.buf = <<>>]
-       [] p.r = "env"    -> [N EXCEPT !.toks = Append(@, Tok("str", EnvExpand(SubSeq(txt, 3, Len(txt) - 1)), L.line))]
+       (* a reference may span lines: the newlines inside it are counted *)
+       [] p.r = "env"    -> [N EXCEPT !.line = @ + NlIn(txt),
+                                      !.toks = Append(@, Tok("str", EnvExpand(SubSeq(txt, 3, Len(txt) - 1)), L.line + NlIn(txt)))]
        [] p.r = "bare"   -> [N EXCEPT !.toks = Append(@, Tok("str", txt, L.line))]
        (* comment *)
        [] p.r \in {"ctext", "cstars"} -> [N EXCEPT !.buf = @ \o txt]
@@ -187,7 +190,7 @@ LexStep(s, L) ==
        [] p.r = "cend"   -> [N EXCEPT !.st = "INITIAL", !.toks = Append(@, Tok("cmt", Trim(L.buf), L.line))]
        (* double-quoted string *)
        [] p.r = "dqclose" -> [N EXCEPT !.st = "INITIAL", !.toks = Append(@, Tok("str", L.buf, L.line))]
-       [] p.r = "dqenv"  -> [N EXCEPT !.buf = @ \o EnvExpand(SubSeq(txt, 3, Len(txt) - 1))]
+       [] p.r = "dqenv"  -> [N EXCEPT !.buf = @ \o EnvExpand(SubSeq(txt, 3, Len(txt) - 1)), !.line = @ + NlIn(txt)]
        [] p.r = "dqnl"   -> [N EXCEPT !.buf = Append(@, cNL), !.line = @ + 1]
        [] p.r = "dqcont" -> [N EXCEPT !.line = @ + 1]
        [] p.r = "oct"    -> LET v == OctVal(s, L.i + 1, p.n - 1)
